@@ -631,7 +631,7 @@ def generate(rng, tier, shard, nshards, mon):
         idx += 1
     mon.exhaustive["fixed-trees-ro+img"] = True
     # (iii) random
-    nval, nro, nimg = ((4000, 288, 96) if tier == "quick" else (60000, 6400, 2400))
+    nval, nro, nimg = ((4000, 288, 96) if tier == "quick" else (60000, 5000, 1800))
     sched = ["val"] * 25 + ["ro"] * 2 + ["img"]
     n = (nval + nro + nimg) // nshards
     quota = {"val": nval // nshards, "ro": nro // nshards, "img": nimg // nshards}
